@@ -4,7 +4,7 @@ from pv import common, gen, orch
 RULE = ("orchestrated thread-mode runs (run_local_thread_dcop + deploy_computations + run) of dpop, dsa, mgm, maxsum and "
         "adsa (periodic actions) on generated DCOPs of 3-6 variables with 2-5 agents and random mappings; half of the non-DPOP runs "
         "with replication (dist_ucs_hostingcosts, k=1..2) before run(), half of the non-terminating ones with a pause / "
-        "resume request while running, a third with periodic metrics collection; perturbation: switch interval 1e-5, "
+        "resume request while running, a third with periodic metrics collection, a tenth with one agent stuck in a callback for 6 s when the run timeout fires (longer than the orchestrator's 5 s stop timeout); perturbation: switch interval 1e-5, "
         "random sleeps around Messaging.post_msg / next_msg and inside every monitored callback (thorough: sys.monitoring "
         "LINE yield injection on half of the runs); monitor: wrappers installed from the harness on start / on_message / "
         "pause of every computation given to Agent.add_computation (and each agent's discovery computation), on callables "
@@ -23,7 +23,9 @@ def gen_run(rng, i):
     na = rng.randint(2, 5)
     # DPOP computations have no footprint() (NotImplementedError): replication is documented for the local-search / maxsum family
     opts = {"replication": algo != "dpop" and rng.random() < 0.5, "k": rng.randint(1, 2), "pause_resume": algo != "dpop" and rng.random() < 0.5,
-            "period": rng.random() < 0.33}
+            "period": rng.random() < 0.33,
+            # fault: one agent is stuck in a callback for longer than the orchestrator's 5 s stop timeout when the run timeout fires
+            "slow_stop": algo in ("dsa", "mgm", "maxsum") and i % 10 in (1, 7)}
     params = {}
     if algo == "adsa":
         params = {"period": 0.05}
@@ -65,7 +67,8 @@ def check_run(algo, case, na, opts, params, seed, lines):
     r = orch.run_orchestrated(case, algo, params, na, "random", seed, timeout=20.0 if algo == "dpop" else 0.8, lines=lines,
                               monitor=mon, replication="dist_ucs_hostingcosts" if opts["replication"] else None,
                               k_target=opts["k"] if opts["replication"] else None, pause_resume=opts["pause_resume"],
-                              collect_moment="period" if opts["period"] else "value_change", period=0.05 if opts["period"] else None)
+                              collect_moment="period" if opts["period"] else "value_change", period=0.05 if opts["period"] else None,
+                              stall=(0.7, 6.0) if opts.get("slow_stop") else None)
     P, rich, kinds = analyse(mon)
     if r["errors"]:
         P.append(("harness:exception", r["errors"][0]))
@@ -99,6 +102,8 @@ def worker(job):
         for k, v in kinds.items():
             R.bump("records_by_kind", k, v)
         R.bump("algorithms", algo)
+        if r.get("stalled_thread"):
+            R.count("runs_with_agent_stuck_at_stop")
         R.bump("statuses", "%s:%s" % (algo, r.get("status")))
         seen = set()
         for k, m in P:
